@@ -11,7 +11,7 @@ truncated ladder matrices; U|psi> is evaluated with scipy's expm (expm_multiply 
   Hhat = a^+ Aa a + 1/2 (a^+ Ab a^+T + h.c.)  (the c-number is dropped: vacuum phase of passive
   gates is 1, as for an interferometer).  The documented S matrices are transcribed in `symplectic`.
   (The docstring *Hamiltonians* of Beamsplitter, Squeezing2 and ControlledZ contradict their own
-  docstring matrices by theta -> -theta, r -> -r/2 and s -> -s respectively; the simulators implement
+  docstring matrices by (theta, phi) -> (-theta, -phi), r -> -r/2 and s -> -s respectively; the simulators implement
   the matrices, so the matrices are the specification used here.)
 * Displacement D(alpha) = exp(alpha a^+ - conj(alpha) a)  (xi -> xi + alpha), Position/Momentum: phi=0, pi/2;
   Kerr exp(i xi n^2); CrossKerr exp(i xi n_i n_j); Attenuator(theta): beamsplitter of transmission
@@ -86,6 +86,12 @@ class DenseFock:
     def apply(self, cls, modes, params):
         """modes: ORDERED tuple; () means all modes in ascending order"""
         modes = tuple(modes) if len(modes) else tuple(range(self.d))
+        if cls == "GaussianTransform" and "factors" in params:  # (U1, r, U2): S = S(U1) S(squeezers r) S(U2)
+            U1, r, U2 = params["factors"]
+            self.apply("Interferometer", modes, {"matrix": U2})
+            for m, rj in zip(modes, r):
+                self.apply("Squeezing", (m,), {"r": float(rj), "phi": 0.0})
+            return self.apply("Interferometer", modes, {"matrix": U1})
         if cls == "Attenuator":  # append a vacuum ancilla, mix with transmission cos(theta)
             self.psi = np.kron(self.psi, np.eye(self.N)[0])
             self.anc += 1
@@ -108,6 +114,8 @@ class DenseFock:
             S = np.block([[P, A], [A.conj(), P.conj()]])
             K = np.diag([1.0] * k + [-1.0] * k)
             Hm = -1j * K @ scipy.linalg.logm(S)
+            if np.max(np.abs(Hm - Hm.conj().T)) > 1e-9:  # e.g. -squeeze: no Hamiltonian logarithm
+                raise ValueError("symplectic matrix of %s has no principal Hamiltonian logarithm; factorise it" % cls)
             Aa, Ab = Hm[:k, :k], Hm[:k, k:]
             a = [self._a(m) for m in modes]
             H = sum(Aa[i, j] * (a[i].getH() @ a[j]) for i in range(k) for j in range(k))
